@@ -85,6 +85,7 @@ struct Session {
     CDNS::CborOutputCompression comp = CDNS::CborOutputCompression::NO_COMPRESSION;
     int serial = 0;
     int line_no = 0;
+    std::string name_tail;  // NM:<tail> - appended to the base name of every named output (names that contain or end in ".part" ...)
 
     Output new_target(bool named, int& fd_out, std::string& name_out) {
         Output o;
@@ -92,7 +93,7 @@ struct Session {
         o.keep_fd = -1;
         if (named) {
             ensure_tmpdir();
-            o.name = g_tmpdir + "/s" + std::to_string(line_no) + "_o" + std::to_string(serial++);
+            o.name = g_tmpdir + "/s" + std::to_string(line_no) + "_o" + std::to_string(serial++) + name_tail;
             name_out = o.name;
         } else {
             int fd = memfd_create(("out" + std::to_string(serial++) + "_").c_str(), 0);
@@ -161,6 +162,9 @@ std::string run_session(const std::string& line, int line_no) {
                 continue;
             } else if (op == "BP") {
                 S.bps.push_back(rec::parse_bp(rec::parse_kv(arg)));
+                continue;
+            } else if (op == "NM") {
+                S.name_tail = arg;
                 continue;
             } else if (op == "X") {
                 auto a = vh::split(arg, ':');
